@@ -213,6 +213,13 @@ impl VM {
                 }),
                 pos,
             )?;
+        } else {
+            // Only primitives can be cast. Leaving nothing on the stack here
+            // would make the next pop hit its unreachable!().
+            return Err(Error::new(
+                format!("Can not cast a {} to {}", val.type_name(), t).into(),
+                pos,
+            ));
         }
         Ok(())
     }
